@@ -21,16 +21,55 @@ command's control point if that command was a curve of the same family, else the
 namespace Verif.Spec.SvgHazard
 open Verif.Spec.SvgPath
 
-/-- shape contract of a number printed by `minify.Number` at precision 0 (C08.5): a number of the
-    grammar, first character digit / `.` / `-`, and no superfluous leading zero (so a lexeme whose
-    digits start with `0` is `0` or `-0`) -/
+/-- decomposition of a printed number: `-`? ip (`.` fp)? (`e` `-`? digits)? -/
+structure NumView where
+  neg : Bool
+  ip : List Char
+  dot : Bool
+  fp : List Char
+  ex : Option (Bool × List Char)
+  deriving DecidableEq, Repr
+
+def NumView.render (v : NumView) : List Char :=
+  (if v.neg then ['-'] else []) ++ (v.ip ++ ((if v.dot then '.' :: v.fp else []) ++
+    (match v.ex with
+     | none => []
+     | some (n, ds) => 'e' :: ((if n then ['-'] else []) ++ ds))))
+
+/-- lexical well-formedness (what the lexer round trip needs) -/
+def NumView.wf (v : NumView) : Bool :=
+  v.ip.all isDigit && v.fp.all isDigit && (v.dot || v.fp.isEmpty) && (!v.ip.isEmpty || !v.fp.isEmpty) &&
+  (match v.ex with
+   | none => true
+   | some (_, ds) => ds.all isDigit && !ds.isEmpty)
+
+/-- no superfluous leading zero: an integer part starting with `0` means the lexeme is `0` or `-0` -/
+def NumView.zeroOk (v : NumView) : Bool :=
+  match v.ip with
+  | '0' :: r => r.isEmpty && !v.dot && v.ex.isNone
+  | _ => true
+
+def NumView.isInt (v : NumView) : Bool := !v.dot && v.ex.isNone
+
+def viewOf (s : List Char) : NumView :=
+  let nr : Bool × List Char := match s with | '-' :: r => (true, r) | _ => (false, s)
+  let ip := nr.2.takeWhile isDigit
+  let r1 := nr.2.dropWhile isDigit
+  let d : Bool × List Char × List Char := match r1 with
+    | '.' :: r => (true, r.takeWhile isDigit, r.dropWhile isDigit)
+    | _ => (false, [], r1)
+  let ex : Option (Bool × List Char) := match d.2.2 with
+    | 'e' :: '-' :: r => some (true, r)
+    | 'e' :: r => some (false, r)
+    | _ => none
+  { neg := nr.1, ip := ip, dot := d.1, fp := d.2.1, ex := ex }
+
+/-- shape contract of a number printed by `minify.Number` at precision 0 (C08.5): `-`? digits (`.` digits)?
+    (`e` `-`? digits)? — no `+`, no `E`, at least one mantissa digit — and no superfluous leading zero
+    (a lexeme whose integer part starts with `0` is `0` or `-0`).  Checked on every output of the real
+    `minify.Number` by the harness (`spec.c05.goodnum`). -/
 def goodNum (s : List Char) : Bool :=
-  (lexNumber s == some (s, [])) &&
-  (match s with
-   | '-' :: '0' :: r => r.isEmpty
-   | '0' :: r => r.isEmpty
-   | c :: _ => isDigit c || c == '.' || c == '-'
-   | [] => false)
+  (viewOf s).wf && (viewOf s).zeroOk && ((viewOf s).render == s)
 
 inductive PrevClass | normal | closed | dropped | degC | degQ
   deriving DecidableEq, Repr
